@@ -130,7 +130,7 @@ def generate(seed: int, tier: str, phase: str) -> Dict[str, Any]:
         plan["ops"] = [{"op": "direct", "k": r.randrange(3), "gseed": r.randrange(4)} for _ in range(r.choice([1, 2]))]
         return plan
     ops: List[Dict[str, Any]] = [{"op": "transform"}]
-    kinds = ["call", "call", "call", "reset", "bad_call", "neighbour", "transform", "fleet"]
+    kinds = ["call", "call", "call", "reset", "bad_call", "neighbour", "transform", "fleet", "call_frozen"]
     enabled = {k for k in sorted(set(kinds)) if r.random() < 0.75} | {"call"}
     kinds = [k for k in kinds if k in enabled]
     ops.append({"op": "call", "j": 0, "k": r.randrange(3), "gseed": r.randrange(4), "bwd": True})
@@ -140,6 +140,10 @@ def generate(seed: int, tier: str, phase: str) -> Dict[str, Any]:
         if k == "call":
             op.update(j=r.randrange(8), k=r.randrange(3), gseed=r.randrange(4), bwd=r.random() < 0.8,
                       nograd=r.random() < 0.15)
+        elif k == "call_frozen":
+            # fine-tuning set-ups: some parameters frozen, data inputs that need no gradient
+            op.update(j=r.randrange(8), k=r.randrange(3), gseed=r.randrange(4), fmask=r.randrange(1, 1 << 16),
+                      input_grad=r.random() < 0.4)
         elif k == "bad_call":
             op.update(j=r.randrange(8))
         elif k == "fleet":
@@ -464,6 +468,20 @@ def _programs(plan: Dict[str, Any], res: Dict[str, Any], log: Any, prf: Any, pro
             w = mods[op["j"] % len(mods)]
             compare(w["mod"], w["mod"], op["k"], op["gseed"], op["bwd"], where, w["first"], w["ref"], w["inputs"],
                     w["lossless"], w["plain"], w["sig"], nograd=bool(op.get("nograd")))
+        elif k == "call_frozen":
+            w = mods[op["j"] % len(mods)]
+            ps = list(w["mod"].parameters())
+            ins = w["inputs"] if op["input_grad"] else [[t.detach() for t in x] for x in w["inputs"]]
+            for i_, p_ in enumerate(ps):
+                p_.requires_grad_(not ((op["fmask"] >> (i_ % 16)) & 1))
+            try:
+                if any(p_.requires_grad for p_ in ps) or op["input_grad"]:
+                    compare(w["mod"], w["mod"], op["k"], op["gseed"], True, where, {}, w["ref"], ins,
+                            w["lossless"], w["plain"], w["sig"])
+                    probe("calls_with_frozen_parameters")
+            finally:
+                for p_ in ps:
+                    p_.requires_grad_(True)
         elif k == "reset":
             torch._dynamo.reset()
             fault("dynamo.reset", True)
